@@ -218,6 +218,8 @@ def judge(ctx, run, base, sym, stats):
         key = kind
         if kind == "bad-errcode":
             key = "bad-errcode:" + re.sub(r"_cb$|\(sync\)$", "", detail.split()[0]).replace("fs_pread", "fs_read") + ":" + detail.split()[-1].replace("UV_", "")
+            if key in ("bad-errcode:fs_read:EINTR",):
+                key = "fs-read-eintr-surfaces"       # listed finding: UV_FS_READ is excluded from the EINTR retry (fs.c uv__fs_work)
         elif kind == "callbacks-owed":
             key = "callbacks-owed:" + detail.split()[0] + ":" + first_failure(run)
         elif kind == "fd-table":
@@ -367,6 +369,14 @@ def run(ctx):
             ctx.violation(sig, f"scenario {scen} faults {' '.join(rep)}: {what}  "
                                f"[reproduce: python3 tools/check.py C16 --replay <this file>]",
                           {"scenario": scen, "faults": rep})
+    ctx.notes["excluded_from_fault_space"] = {
+        "EAGAIN on a blocking descriptor": "cannot happen (signal lock pipe, spawn error pipe)",
+        "EAGAIN/ENOBUFS on write to the signal pipe or the async eventfd": "only when full, i.e. a wakeup is already pending",
+        "EINTR on open() of /proc, /sys, /dev, /etc entries and of directories": "such opens never sleep interruptibly; "
+            "uv__open_cloexec does not retry, so uv_cpu_info/uv_resident_set_memory would return UV_EINTR",
+        "ENOMEM on EPOLL_CTL_DEL": "removal does not allocate (uv__io_check_fd aborts on it, linux.c:750)",
+        "EEXIST on EPOLL_CTL_MOD/DEL": "the kernel only reports it for ADD",
+    }
     ctx.notes["faults_fired"] = dict(stats["fired"])
     ctx.notes["abort_sites_hit"] = stats["aborts"]
     ctx.notes["runs"] = {k: stats[k] for k in ("runs", "not_fired", "stalls", "transparent_runs")}
